@@ -64,8 +64,30 @@ func (o *Out) Case(id, op string, args []string, implOut []string) {
 	o.impl.Flush()
 }
 
+// Serial: VERIF_SERIAL=1 — run one case at a time, write each as soon as it is done, and leave a
+// marker naming the case in flight, so that a case that kills the whole process (a Go runtime
+// fatal error cannot be recovered) can be told from the others. bin/check reruns a crashed
+// harness in this mode.
+func Serial() bool { return os.Getenv("VERIF_SERIAL") == "1" }
+
+// MarkRunning records the case about to run (serial mode only).
+func MarkRunning(id, op string, args []string) {
+	if Serial() && *OutDir != "" {
+		os.WriteFile(filepath.Join(*OutDir, "running.tsv"), []byte(id+"\t"+op+"\t"+strings.Join(args, "\t")+"\n"), 0o644)
+	}
+}
+
 // Batch runs fn over the argument sets with `workers` goroutines and writes the cases in order.
 func (o *Out) Batch(prefix, op string, argSets [][]string, workers int, fn func([]string) []string) {
+	if Serial() {
+		for i := range argSets {
+			id := fmt.Sprintf("%s%d", prefix, i)
+			MarkRunning(id, op, argSets[i])
+			o.Case(id, op, argSets[i], fn(argSets[i]))
+		}
+		os.Remove(filepath.Join(*OutDir, "running.tsv"))
+		return
+	}
 	res := make([][]string, len(argSets))
 	sem := make(chan struct{}, workers)
 	done := make(chan struct{})
